@@ -185,8 +185,6 @@ def classify(case: dict, res: dict) -> list[tuple[str | None, str, dict]]:
             fid = "F23"
         elif kind in ("syntax", "import") and "mock_client" in where + msg and feats["zero_operations"]:
             fid = "F31"
-        elif kind == "import" and "unsupported operand type(s) for |: 'str'" in msg and feats["optional_self_ref"]:
-            fid = "F1"
         elif kind == "import" and re.search(r"cannot import name 'Error\d+'", msg) and feats["non_error_non_2xx_status"]:
             fid = "F3"
         elif kind == "import" and feats["mutual_refs"] and ("partially initialized module" in msg or "circular import" in msg
@@ -240,6 +238,25 @@ WITNESSES = {
 }
 
 
+def former_witness_cases() -> list[dict]:
+    """Inputs that used to trigger a finding that is repaired by now (no attribution: a recurrence is a violation).
+    F1: an optional self reference - one, two beside a required field, next to required / array self references."""
+    ref = {"$ref": "#/components/schemas/Node"}
+    variants = {
+        "F1-direct": WITNESSES["F1"]["components"]["schemas"]["Node"],
+        "F1-two-optional": {"type": "object", "required": ["v"], "properties": {"left": ref, "right": ref, "v": {"type": "integer"}}},
+        "F1-mixed": {"type": "object", "required": ["head"],
+                     "properties": {"head": ref, "parent": ref, "children": {"type": "array", "items": ref}, "v": {"type": "string"}}},
+    }
+    out = []
+    for i, (vid, node) in enumerate(variants.items()):
+        doc = witness_doc("F1")
+        doc["components"] = {"schemas": {"Node": node}}
+        pkg, core = LAYOUTS[(2 * i + 1) % len(LAYOUTS)]
+        out.append({"id": f"former-{vid}", "stream": "former-witness", "doc": doc, "package": pkg, "core": core, "strategy": STRATEGIES[i % 3]})
+    return out
+
+
 def witness_doc(fid: str) -> dict:
     base = {"openapi": "3.0.3", "info": {"title": "W", "version": "1"}, "paths": {"/x": {"get": {"operationId": "getX", "responses": {"200": {"description": "ok"}}}}},
             "components": {"schemas": {}}}
@@ -279,7 +296,7 @@ def check(run: Run, ctx) -> None:
                        "by file and every module imported in a fresh interpreter with the generator blocked; a case is distinct by "
                        "its document+layout hash and non-trivial when generation succeeded and produced at least one model or endpoint module")
     corr(run, ctx)
-    cases = make_cases(ctx, r)
+    cases = former_witness_cases() + make_cases(ctx, r)
     # witnesses of recorded findings are replayed first
     wcases = [{"id": f"witness-{fid}", "stream": "witness", "doc": witness_doc(fid), "package": "pkg.client", "core": None, "strategy": "operationId", "fid": fid}
               for fid in known.entries]
